@@ -5,7 +5,7 @@ from typing import Any, Dict, List, Optional, Set, Tuple
 
 from .. import linexpr as lx
 from ..ccfg import build_c_cfg
-from ..cfacts import CUnit, call_args, callee, int_value, is_assign, strip, walk
+from ..cfacts import CUnit, dispatcher_of, call_args, callee, int_value, is_assign, strip, walk
 from ..core import AnalysisError, Report
 from ..linexpr import Env, c_ir, to_lin
 from ..pycfg import Graph, Node
@@ -78,6 +78,12 @@ class Fn:
             if ir[0] == 'cmp' and len(ir[1]) == 1:
                 op = ir[1][0] if pol else NEG[ir[1][0]]
                 a, b = ir[2][0], ir[2][1]
+                # p == NULL / p != NULL (NULL folds to 0 or ((void*)0)) read as !p / p
+                nullish = lambda x: x == ('num', 0) or lx.show(x).replace(' ', '') in ('NULL', '((void*)0)', '0')
+                if op in ('==', '!=') and (nullish(a) or nullish(b)) and not (nullish(a) and nullish(b)):
+                    other = b if nullish(a) else a
+                    if other[0] in ('sym', 'attr', 'idx'):
+                        out.append(('falsy' if op == '==' else 'truthy', other, ('num', 0)))
                 out.append((op, a, b))
                 # the same fact with its operands swapped (`hi >= lo` is `lo <= hi`): consumers match either spelling
                 FLIP = {'<': '>', '<=': '>=', '>': '<', '>=': '<=', '==': '==', '!=': '!='}
@@ -139,7 +145,11 @@ def _mask_bound(fn: Fn, e: Dict[str, Any], _depth: int = 0) -> Optional[Tuple[st
                 c = int_value(s['inner'][0])
             kinds.add(('and', c if c is not None else fn.cu.src_of(s['inner'][1])))
         elif s.get('kind') == 'BinaryOperator' and s.get('opcode') == '%':
-            kinds.add(('mod', fn.cu.src_of(strip(s['inner'][1]))))
+            c = int_value(s['inner'][1])
+            if c is not None and c > 0 and c & (c - 1) == 0:
+                kinds.add(('and', c - 1))                  # x % 2^k on an unsigned x is x & (2^k - 1)
+            else:
+                kinds.add(('mod', fn.cu.src_of(strip(s['inner'][1]))))
         else:
             return None
     return kinds.pop() if len(kinds) == 1 else None
@@ -447,6 +457,12 @@ def rule_overflow(rep: Report, cu: CUnit) -> None:
               cu.rel, expected='one realloc, capacity doubling')
 
 
+def _null_tests(v: Optional[str]) -> Set[str]:
+    """the spellings of `v is NULL` (spaces removed)"""
+    v = (v or '').replace(' ', '')
+    return {f'!{v}', f'{v}==NULL', f'NULL=={v}', f'{v}==0', f'!({v})'}
+
+
 def rule_alloc(rep: Report, cu: CUnit) -> None:
     rep.rule('C11.ALLOC', 'every malloc/calloc/realloc result is NULL-tested before use, the failure path sets a Python error '
              '(or takes the documented paged fallback), and realloc is assigned to a temporary', 7)
@@ -473,7 +489,7 @@ def rule_alloc(rep: Report, cu: CUnit) -> None:
             while nn is not None and nn.kind == 'stmt' and isinstance(nn.ast, dict) and nn.ast.get('kind') == 'DeclStmt' \
                     and not any(v.get('inner') for v in nn.ast.get('inner', [])):
                 nn = g.nodes[g.succ[nn.id][0][0]]       # declaration without initialiser
-            ok = nn is not None and nn.kind == 'cond' and cu.src_of(nn.ast) == f'!{tgt}'
+            ok = nn is not None and nn.kind == 'cond' and cu.src_of(nn.ast).replace(' ', '') in _null_tests(tgt)
             handled = False
             if ok:
                 t = [m for m, lab in g.succ[nn.id] if lab == 'T'][0]
@@ -641,7 +657,7 @@ def rule_ownership(rep: Report, cu: CUnit) -> None:
             if node.kind == 'return' and new == 'owned':
                 # `return PyErr_NoMemory()` right after a failed calloc holds no ring (NULL)
                 conds = [cu.src_of(g.nodes[p].ast) for p, lab in g.pred[nid] if g.nodes[p].kind == 'cond' and lab == 'T']
-                if '!last_ops_ring' not in conds:
+                if not any(c.replace(' ', '') in _null_tests('last_ops_ring') for c in conds):
                     bad.append(f'ring leaked at {cu.site(node.ast)}')
             for m, lab in g.succ[nid]:
                 if m not in INr:
@@ -722,9 +738,9 @@ def _own_transfer(cu: CUnit, g: Graph, node: Node, state: frozenset, tracked: Se
         outs: List[Tuple[Optional[str], frozenset]] = []
         t_state, f_state = set(st), set(st)
         for v in tracked:
-            if txt == f'!{v}':
+            if txt in _null_tests(v):
                 t_state.discard(v)
-            if txt == v:
+            if txt in (v, f'{v}!=NULL', f'NULL!={v}', f'{v}!=0'):
                 f_state.discard(v)
             if txt.startswith(f'!{v}||'):
                 pass          # may be NULL or not: XDECREF follows
@@ -750,7 +766,7 @@ def rule_errors(rep: Report, cu: CUnit) -> None:
     exposed = ['Memory_init', 'Memory_add_segment', 'Memory_set_word', 'Memory_get_word', 'Memory_set_words', 'Memory_run',
                'PyInit__fjcore', 'build_run_result', 'mem_get_page', 'mem_grow_slots', 'mem_decide_storage', 'spec_grow']
     error_helpers = {'mem_get_page', 'mem_grow_slots', 'mem_decide_storage', 'spec_grow', 'build_run_result',
-                     'run_measured_loop', 'run_flat_loop', 'run_generic_loop'}
+                     'run_measured_loop', dispatcher_of(cu, 'run_flat_loop_impl'), dispatcher_of(cu, 'run_paged_loop_impl')}
     # every function that returns a PyObject* follows the CPython convention (NULL <=> error indicator set): judged like the
     # frozen entry points, and - once all its failure returns are discharged - usable as an error-setting helper by its callers
     py_returning = sorted(f for f in cu.funcs if cu.func(f).get('type', {}).get('qualType', '').startswith('PyObject *(')
